@@ -39,7 +39,12 @@ func ruleR124(c *Ctx) {
 		sig := f.Obj.Type().(*types.Signature)
 		var handle *types.Var
 		for i := 0; i < sig.Results().Len(); i++ {
-			if fs, ok := sig.Results().At(i).Type().Underlying().(*types.Signature); ok && fs.Params().Len() == 1 && isNamed(fs.Params().At(0).Type(), "context", "Context") && fs.Results().Len() == 0 {
+			rt := sig.Results().At(i).Type().Underlying()
+			if sl, isSl := rt.(*types.Slice); isSl {
+				// a list of start functions, one per flow that will flow
+				rt = sl.Elem().Underlying()
+			}
+			if fs, ok := rt.(*types.Signature); ok && fs.Params().Len() == 1 && isNamed(fs.Params().At(0).Type(), "context", "Context") && fs.Results().Len() == 0 {
 				handle = sig.Results().At(i)
 			}
 		}
